@@ -9,6 +9,42 @@ use crate::refmodel::RefRun;
 
 pub struct C17;
 
+impl C17 {
+    /// The unsatisfiable request: 2^40..2^62 cells asked of the tape the program leaves behind.
+    fn check_huge(&self, c: &ProgCase, r: &RefRun, cfg: RunCfg, h: crate::exec::Huge, stats: &mut Stats) -> Outcome {
+        let run = judge::run_child(&c.program, &c.input, c.bits, &[cfg], r, judge::window(r.steps, 1));
+        let o = match run.obs.iter().find(|o| o.cfg == 0) {
+            Some(o) => o,
+            None => return Outcome::Inconclusive("child logged nothing".into()),
+        };
+        let desc = format!("[{} then a request of kind {} for about 2^{}{:+} cells]", cfg.describe(c.bits), h.kind % 6, h.exp.clamp(40, 62), h.jitter);
+        let begun = o.note("huge-begin").map(|s| s.to_string());
+        if begun.is_none() || o.events != r.events {
+            return match (&o.end, &run.exit) {
+                (End::Cut, Exit::Timeout) => Outcome::Inconclusive(format!("{desc} timeout before the request")),
+                _ => Outcome::Skip("program run under the guard allocator did not pass (left to C06)"),
+            };
+        }
+        stats.class("unsatisfiable-request");
+        stats.class(&format!("unsatisfiable-request:kind{}", h.kind % 6));
+        if let Some(u) = o.note("huge-unowned") {
+            return Outcome::Fail(Fail { kind: "stale-tape".into(), detail: format!("{desc} (offsets {}) came back, and the tape reports offset {u} accessible although that cell is outside every block the allocator has handed out", begun.unwrap()), cfg: None });
+        }
+        match (&o.end, &run.exit) {
+            (End::Returned(_), _) => stats.class("unsatisfiable-request:returned-with-owned-cells"),
+            (End::Panicked(_), _) => stats.class("unsatisfiable-request:ended-by-panic"),
+            (End::Cut, Exit::Signal(s)) if *s == libc::SIGABRT => stats.class("unsatisfiable-request:ended-by-abort"),
+            (End::Cut, Exit::Signal(s)) => {
+                return Outcome::Fail(Fail { kind: format!("crash:{}", child::signal_name(*s)), detail: format!("{desc} (offsets {}) killed by {}", begun.unwrap(), child::signal_name(*s)), cfg: None });
+            }
+            (End::Cut, Exit::Timeout) => return Outcome::Inconclusive(format!("{desc} timeout in the request")),
+            (End::Cut, e) => return Outcome::Fail(Fail { kind: "exit".into(), detail: format!("{desc} process ended {:?}", e), cfg: None }),
+        }
+        record_common(c, r, stats);
+        Outcome::Pass { nontrivial: false }
+    }
+}
+
 impl ProgProperty for C17 {
     fn id(&self) -> &'static str {
         "C17"
@@ -17,7 +53,7 @@ impl ProgProperty for C17 {
         "fault_enumeration"
     }
     fn rule(&self) -> String {
-        "roaming / structured programs (halting canonical run) x input x width x back end x level x {fresh context, context that already owns a small tape}; the run is first executed under the guard-page allocator without failure to count its allocations, then again with one request refused (returns null): the k-th zero-initialised allocation (tape and interpreter-context requests; k drawn over all of them, or every k in the thorough tier for programs with <= 12 such requests) or, for a quarter of the cases, the k-th allocation of any kind. Oracle on how the child process ends: SIGABRT (allocation-failure abort) or a Rust panic = pass; SIGSEGV/SIGBUS/SIGILL, or a second free of a tape block (a stale owner; detected by the allocator) = violation; a normal return after the refusal is a violation unless the log is the complete canonical sequence (the failure was then evidently handled without harm, e.g. by a successful retry); the events logged before the end must be a canonical prefix. Non-trivial: the refused request is a tape re-allocation (an older non-empty tape exists); distinct = distinct (program, input, width, back end, level, k)".into()
+        "roaming / structured programs (halting canonical run) x input x width x back end x level x {fresh context, context that already owns a small tape}; the run is first executed under the guard-page allocator without failure to count its allocations, then again with one request refused (returns null): the k-th zero-initialised allocation (tape and interpreter-context requests; k drawn over all of them, or every k in the thorough tier for programs with <= 12 such requests) or, for a quarter of the cases, the k-th allocation of any kind. Oracle on how the child process ends: SIGABRT (allocation-failure abort) or a Rust panic = pass; SIGSEGV/SIGBUS/SIGILL, or a second free of a tape block (a stale owner; detected by the allocator) = violation; a normal return after the refusal is a violation unless the log is the complete canonical sequence (the failure was then evidently handled without harm, e.g. by a successful retry); the events logged before the end must be a canonical prefix. A fifth of the cases refuse nothing and instead, after the program has returned, ask its tape for 2^40..2^62 cells (make_accessible above / below / both sides, a far write, a far move + write): the process may end by abort or panic; if the call returns, every probed offset the tape reports accessible must lie inside a live block of the allocator (`stale-tape` otherwise). Non-trivial: the refused request is a tape re-allocation (an older non-empty tape exists); distinct = distinct (program, input, width, back end, level, k)".into()
     }
     fn assumptions(&self) -> Vec<String> {
         vec!["the guard-page allocator unmaps freed blocks and fences live ones, so touching a null, stale or foreign tape faults instead of passing silently".into()]
@@ -39,6 +75,12 @@ impl ProgProperty for C17 {
         let any = sel.c % 4 == 0;
         let alloc = Alloc { mode: 1 + (sel.a % 3) as u8, fail_zeroed_at: if any { None } else { Some(sel.b) }, fail_any_at: if any { Some(sel.b) } else { None } };
         // a third of the cases start with a context that already owns a (guarded) tape
+        if sel.c % 5 == 2 {
+            // no refusal: after the program, a request that no allocator can satisfy
+            let huge = crate::exec::Huge { kind: (sel.a % 6) as u8, exp: if sel.b % 2 == 0 { 59 + (sel.b / 2 % 4) as u8 } else { 40 + (sel.b / 2 % 19) as u8 }, jitter: (sel.d % 7) as i8 - 3 };
+            let alloc = Alloc { mode: 1 + (sel.a % 3) as u8, fail_zeroed_at: None, fail_any_at: None };
+            return vec![RunCfg { alloc, pre_tape: sel.c % 3 == 1, huge: Some(huge), ..RunCfg::plain(backend, sel.level.min(3)) }];
+        }
         vec![RunCfg { alloc, pre_tape: sel.c % 3 == 1, ..RunCfg::plain(backend, sel.level.min(3)) }]
     }
     fn nontrivial(&self, _c: &ProgCase, _r: &RefRun, _obs: &[Option<Obs>], _stats: &mut Stats) -> bool {
@@ -46,6 +88,9 @@ impl ProgProperty for C17 {
     }
     fn custom_check(&self, c: &ProgCase, r: &RefRun, stats: &mut Stats) -> Option<Outcome> {
         let cfg = c.cfgs[0];
+        if let Some(h) = cfg.huge {
+            return Some(self.check_huge(c, r, cfg, h, stats));
+        }
         let thorough = crate::props::c08::tier_is_thorough();
         // 1. baseline: same configuration, nothing refused
         let base = RunCfg { alloc: Alloc { fail_zeroed_at: None, fail_any_at: None, ..cfg.alloc }, ..cfg };
@@ -132,6 +177,6 @@ impl ProgProperty for C17 {
     }
     fn floors(&self, tier: Tier) -> Vec<(&'static str, u64)> {
         let q = if tier == Tier::Quick { 1 } else { 20 };
-        vec![("nontrivial", 60 * q), ("refused:zeroed", 300 * q), ("refused:any-kind", 100 * q)]
+        vec![("nontrivial", 50 * q), ("refused:zeroed", 250 * q), ("refused:any-kind", 80 * q), ("unsatisfiable-request", 150 * q)]
     }
 }
